@@ -508,6 +508,8 @@ class CallMixin(StmtMixin):
             if shape is not None:
                 sort = shape.fields.get(last) or shape.ghost.get(last)
             if sort is None:
+                if shape is not None:
+                    return st      # the declared shape of this class has no such field: there is nothing to change
                 raise Unsupported(f"modifies path {path}: field {last} unknown")
             st, v, inv = self.make(st, sort, f"{last}'")
             return st.heap_set(cur, last, v).assume(*inv)
